@@ -39,7 +39,7 @@ Apply(k, op, a, v) ==
     [] k = "wa"  -> WAStep(op, a, v)
     [] OTHER -> R(v, "ood")
 
-RoundTrips(k, v) == IF k = "wa" THEN WARoundTrips(v) ELSE TRUE
+RoundTrips(k, v) == IF k = "wa" THEN WARoundTrips(v) ELSE IF k = "csp" THEN CSPRoundTrips(v) ELSE TRUE
 EmptyView(k) == CASE k = "cr" -> CRNone
                   [] k = "wa" -> [ty |-> <<98, 97, 115, 105, 99>>, tok |-> None, ps |-> <<>>]
                   [] OTHER -> <<>>
@@ -116,7 +116,7 @@ AssignExp(ln) ==       \* [ok, e: expected optional header text, n: expected num
          [ok |-> \A i \in 1..Len(a.xs) : SetItemOK(a.xs[i]), e |-> IF a.xs = <<>> THEN None ELSE Some(SerSet(a.xs)),
           rt |-> SetDistinct(a.xs), v |-> a.xs]
     [] a.tag = "value" /\ k = "csp" ->
-         LET d == DUpdate(<<>>, a.ps) IN [ok |-> CSPOK(d), e |-> IF d = <<>> THEN None ELSE Some(SerCSP(d)), rt |-> TRUE, v |-> d]
+         LET d == DUpdate(<<>>, a.ps) IN [ok |-> CSPOK(d), e |-> IF d = <<>> THEN None ELSE Some(SerCSP(d)), rt |-> CSPRoundTrips(d), v |-> d]
     [] a.tag = "value" /\ k = "cr" ->
          LET c == [un |-> a.y, st |-> a.m1, sp |-> a.m2, ln |-> a.m3] IN
          [ok |-> CROK(c), e |-> IF a.y = None THEN None ELSE Some(SerCR(c)), rt |-> TRUE, v |-> NF("cr", c)]
